@@ -227,7 +227,7 @@ impl<'a, 'tcx> BodyEx<'a, 'tcx> {
                     .s("dk", &format!("{:?}", kind))
                     .s("p", &self.ex.qpath(did))
                     .s("d", &self.ex.dstr(did));
-                if matches!(kind, DefKind::Fn | DefKind::AssocFn) {
+                if matches!(kind, DefKind::Fn | DefKind::AssocFn | DefKind::AssocConst { .. }) {
                     if let Some(args) = self.tr.node_args_opt(hir_id) {
                         let a: Vec<String> = args
                             .iter()
@@ -235,8 +235,10 @@ impl<'a, 'tcx> BodyEx<'a, 'tcx> {
                             .map(|x| self.ex.ty(x).to_string())
                             .collect();
                         o = o.arr("targs", a);
-                        if let Some(rp) = self.resolve(did, args) {
-                            o = o.s("rp", &rp);
+                        if matches!(kind, DefKind::Fn | DefKind::AssocFn) {
+                            if let Some(rp) = self.resolve(did, args) {
+                                o = o.s("rp", &rp);
+                            }
                         }
                     }
                 }
@@ -309,6 +311,10 @@ impl<'a, 'tcx> BodyEx<'a, 'tcx> {
             LitKind::Char(c) => Obj::new("char").s("v", &c.to_string()).end(),
             LitKind::Bool(b) => Obj::new("bool").b("v", *b).end(),
             LitKind::Byte(b) => Obj::new("int").s("v", &format!("{}", b)).end(),
+            LitKind::ByteStr(bytes, _) => {
+                let hex: String = bytes.as_byte_str().iter().map(|b| format!("{:02x}", b)).collect();
+                Obj::new("bytes").s("v", &hex).end()
+            }
             other => Obj::new("otherlit").s("v", &format!("{:?}", other)).end(),
         }
     }
